@@ -35,10 +35,53 @@ def shards(tier, seed):
     return [{'shard': i, 'of': NSH} for i in range(NSH)]
 
 
-def run(prog, cache):
+# embedder signature extensions that are NOT idempotent: the instruction runs
+# them exactly once, so the message every (signature, key) attempt is checked
+# against is the one after a single application
+class Ext:
+    calls = 0
+
+
+def _ext_step(tape, stack, cache):
+    Ext.calls += 1
+    cache['sigfield1'] = hashlib.sha256(
+        b'step' + cache.get('sigfield1', b'')).digest()[:12]
+
+
+def _ext_meter(tape, stack, cache):
+    Ext.calls += 1
+    if Ext.calls > 1:
+        raise ValueError('signature-operation budget of this run exhausted')
+
+
+def _ext_append(tape, stack, cache):
+    Ext.calls += 1
+    cache['sigfield8'] = cache.get('sigfield8', b'') + b'+'
+
+
+EXTS = {'step': _ext_step, 'meter': _ext_meter, 'append': _ext_append}
+
+
+def effective(fields, plugin):
+    """the sigfields after the extension ran once"""
+    f = dict(fields)
+    if plugin == 'step':
+        f['sigfield1'] = hashlib.sha256(
+            b'step' + f.get('sigfield1', b'')).digest()[:12]
+    elif plugin == 'append':
+        f['sigfield8'] = f.get('sigfield8', b'') + b'+'
+    return f
+
+
+def run(prog, cache, plugin=None):
     functions = env.mods()[0]
+    Ext.calls = 0
     try:
-        _, stack, _ = functions.run_script(prog, cache)
+        if plugin:
+            _, stack, _ = functions.run_script(
+                prog, cache, plugins={'signature_extensions': [EXTS[plugin]]})
+        else:
+            _, stack, _ = functions.run_script(prog, cache)
         return list(stack.deque), None
     except BaseException as e:
         return None, e
@@ -137,9 +180,15 @@ def judge(ctx, case, perms=True):
     fields, keys, sigs = case['fields'], case['keys'], case['sigs']
     allowed, m, n = case['allowed'], case['m'], case['n']
     below = case.get('below', [])
-    want = expected(fields, keys, sigs, allowed, m, n)
+    plugin = case.get('plugin')
+    ctx.tab('extension', plugin)
+    want = expected(effective(fields, plugin), keys, sigs, allowed, m, n)
     st, exc = run(prog_for(keys, sigs, allowed, m, n, below=below),
-                  dict(fields))
+                  dict(fields), plugin)
+    if plugin and Ext.calls != 1 and exc is None:
+        ctx.violation('multisig-extension-count', 'the signature extension '
+                      f'ran {Ext.calls} times for one CHECK_MULTISIG', case,
+                      1, Ext.calls)
     got = observe(st, exc, len(below))
     ctx.evaluated()
     ctx.tab('expected', want)
@@ -158,7 +207,7 @@ def judge(ctx, case, perms=True):
                       repr(exc)[:120] if exc else got)
     # _VERIFY form
     stv, excv = run(prog_for(keys, sigs, allowed, m, n, True, below),
-                    dict(fields))
+                    dict(fields), plugin)
     if want is True:
         if excv is not None or stv != list(below):
             ctx.violation('multisig-verify-rejects', 'CHECK_MULTISIG_VERIFY '
@@ -189,7 +238,8 @@ def judge(ctx, case, perms=True):
         for kp, sp in combos:
             k2 = [keys[i] for i in kp]
             s2 = [sigs[i] for i in sp]
-            st2, exc2 = run(prog_for(k2, s2, allowed, m, n), dict(fields))
+            st2, exc2 = run(prog_for(k2, s2, allowed, m, n), dict(fields),
+                            plugin)
             ctx.count('permutations_run')
             got2 = observe(st2, exc2, 0)
             if got2 != want:
@@ -231,9 +281,11 @@ def run_shard(spec, ctx):
             if rng.random() < 0.7}
         sp = list(sp)
         rng.shuffle(sp)
-        keys, sigs = build_case(rng, n, sp, allowed, fields)
+        plugin = (None, None, 'step', 'meter', 'append')[(idx // of) % 5]
+        keys, sigs = build_case(rng, n, sp, allowed,
+                                effective(fields, plugin))
         case = {'kind': 'ms', 'fields': fields, 'keys': keys, 'sigs': sigs,
-                'allowed': allowed, 'm': m, 'n': n,
+                'allowed': allowed, 'm': m, 'n': n, 'plugin': plugin,
                 'kinds': [k for k, _ in sp], 'who': [w for _, w in sp],
                 'below': [b'\xaa'] if idx % 3 == 0 else []}
         judge(ctx, case)
@@ -251,9 +303,11 @@ def run_shard(spec, ctx):
         fields = {f'sigfield{k}': bytes(rng.getrandbits(8) for _ in range(
             rng.choice((0, 3, 32)))) for k in range(1, 9)
             if rng.random() < 0.6}
-        keys, sigs = build_case(rng, n, sp, allowed, fields)
+        plugin = rng.choice((None, 'step', 'meter', 'append'))
+        keys, sigs = build_case(rng, n, sp, allowed,
+                                effective(fields, plugin))
         case = {'kind': 'ms', 'fields': fields, 'keys': keys, 'sigs': sigs,
-                'allowed': allowed, 'm': m, 'n': n,
+                'allowed': allowed, 'm': m, 'n': n, 'plugin': plugin,
                 'kinds': [k for k, _ in sp], 'who': [w for _, w in sp]}
         judge(ctx, case)
     # builder: make_multisig_lock + concatenated single-sig witnesses
